@@ -788,6 +788,8 @@ CONTACTS = ["none", "rest_mu0", "stick_mu", "slide_mu", "open_mu", "two_spheres"
             "frictionless_then_slide",
             # slow sliding (|gamma_F| = 2.2e-4 and 3e-7): still sliding, the friction force has full magnitude
             "slide_slow", "slide_tiny",
+            # creeping (1e-7, above the stick tolerance) under a large normal force (1e5 kg ball): both extremes at once
+            "slide_tiny_heavy",
             # a closed contact on the mechanism's own tip body: the contact force loads the joints (seeded C16-f)
             "tip_plane_mu0", "tip_plane_mu"]
 INITS = ["rest", "spin"]
@@ -1005,6 +1007,9 @@ def build_c16(case):
             v = np.array([2e-4, -1e-4, 0.0])
         if con == "slide_tiny":
             v = np.array([3e-7, 0.0, 0.0])
+        if con == "slide_tiny_heavy":
+            v = np.array([1e-7, 0.0, 0.0])
+            mb = 1.0e5
         if con == "leaving_mu":
             v = np.array([0.2, -0.1, 0.3])
         if con == "slide_x":
